@@ -52,6 +52,11 @@ def surf_sets(tier):
         [dict(pf="rect", nx=2, ny=3, side="fullsym", off=[-4.0, 0.0, 0.3], span=3.0, chord=0.8), dict(pf="twdi", nx=3, ny=3, side="right", off=None)],
     ]
     out += two
+    # two and three surfaces of IDENTICAL mesh shape (anything keyed on the shape would be shared between them)
+    out += [
+        [dict(pf="swept", nx=3, ny=3, side="left", off=None), dict(pf="twdi", nx=3, ny=3, side="left", off=[5.0, 0.0, 0.7], span=3.0, chord=0.8)],
+        [dict(pf="swept", nx=2, ny=5, side="full", off=None), dict(pf="rect", nx=2, ny=5, side="full", off=[5.0, 0.3, 0.7], span=3.0, chord=0.8), dict(pf="twdi", nx=2, ny=5, side="full", off=[-3.0, -0.2, -0.5], span=5.0, chord=1.0)],
+    ]
     # three surfaces of mixed sizes, the larger chordwise counts in the LAST slots (offset bookkeeping beyond the second surface)
     out += [
         [dict(pf="rect", nx=2, ny=3, side="full", off=None), dict(pf="swept", nx=2, ny=3, side="full", off=[5.0, 0.3, 0.7], span=3.0, chord=0.8), dict(pf="camber", nx=3, ny=5, side="full", off=[-3.0, -0.2, -0.5], span=5.0, chord=1.0)],
